@@ -210,7 +210,7 @@ def run(prog: Program, res: Result) -> None:  # noqa: PLR0912, PLR0915
         res.fail("C20.R3", file=lexer.file, line=ap.node.lineno if ap else 0, qualname="Lexer.accept_path", construct="quoted segment handling", message="quoted path segments lose the single-quote replacement", what=what)
 
     # ------------------------------------------------------------------ R4 json
-    res.rule("C20.R4", "the json filter returns json.dumps(<left>, default=self.default, indent=…) of its untouched input")
+    res.rule("C20.R4", "the json filter returns json.dumps(<left>, default=self.default, indent=…, allow_nan=False) of its untouched input (nothing that is not JSON is emitted)")
     filters, _ = prog.registries()
     n_json = 0
     for _n, target, _v, _m in filters.get("json", []):
@@ -225,8 +225,11 @@ def run(prog: Program, res: Result) -> None:  # noqa: PLR0912, PLR0915
         kws = {k.arg: norm(k.value) for k in rets[0].keywords} if ok else {}
         if ok and kws.get("ensure_ascii", "True") in ("True", "False") and "sort_keys" not in kws and "skipkeys" not in kws and "separators" not in kws:
             reassigned = any(isinstance(n, (ast.Assign, ast.AugAssign)) and any(isinstance(t, ast.Name) and t.id == left for t in (n.targets if isinstance(n, ast.Assign) else [n.target])) for n in ast.walk(call.node))
-            if not reassigned:
+            if not reassigned and kws.get("allow_nan") == "False":
                 res.ok("C20.R4", f"{call.file}:{call.node.lineno} {call.qualname}", what, norm(rets[0], 80))
+                continue
+            if not reassigned:
+                res.fail("C20.R4", file=call.file, line=call.node.lineno, qualname=call.qualname, construct="json.dumps without allow_nan=False", message="the json filter calls json.dumps with allow_nan left on: inf and nan are written as Infinity / NaN, which is not JSON and does not decode to the input", what="json filter emits JSON only")
                 continue
         res.fail("C20.R4", file=call.file, line=call.node.lineno, qualname=call.qualname, construct=f"json returns {[norm(r, 60) for r in rets]}", message="the json filter pre-processes its input or post-processes json.dumps output: the result no longer decodes to the input", what=what)
     res.floor("C20.R4", "json filter implementations", n_json, 1)
